@@ -116,6 +116,7 @@ func (rc *runCtx) runChunk(ch chunk) {
 			"TMPDIR="+work, "HOME="+work, "XDG_CONFIG_HOME="+filepath.Join(work, ".config"),
 			"VERIF_TIER="+rc.tier,
 			"VERIF_RACE_LOG="+raceLog,
+			"VERIF_CANARY_FILE="+filepath.Join(dir, "canary.bin"),
 			"GORACE=halt_on_error=0 history_size=5 log_path="+raceLog,
 		)
 		cmd.Env = append(cmd.Env, rc.p.Env...)
@@ -169,6 +170,12 @@ func (rc *runCtx) runChunk(ch chunk) {
 		}
 		o := NewObs(&victim)
 		o.Status = "died"
+		if cb, e := os.ReadFile(filepath.Join(dir, "canary.bin")); e == nil {
+			if len(cb) > 512 {
+				cb = cb[:512]
+			}
+			tail = fmt.Sprintf("last input written before the call (%d bytes shown): %x\n%s", len(cb), cb, tail)
+		}
 		o.Stderr = tail
 		o.Note = fmt.Sprintf("worker exit: %v", err)
 		rc.mu.Lock()
